@@ -86,10 +86,13 @@ RecordHeads(DD, nd, k) ==
                       nd1 == AddSelfEvent(D1, nd, e)
                   IN  RecordHeads(D1, [ nd1 EXCEPT !.heads = rest ], k + 1)
 
+\* (node.pull / processEagerSyncRequest: core.sync, then - unless the sync failed -
+\* core.processSigPool)
 DeliverOutcome(m) ==
     LET st == SyncInsert(D, nodes[m.to], m.from, m.evs)
         creates == ~st.err /\ WantsRecord(st.nd)
-    IN  IF creates THEN RecordHeads(D, st.nd, 0) ELSE [ D |-> D, nd |-> st.nd ]
+        r == IF creates THEN RecordHeads(D, st.nd, 0) ELSE [ D |-> D, nd |-> st.nd ]
+    IN  IF st.err THEN r ELSE [ r EXCEPT !.nd.h = ProcessSigPool(@) ]
 
 \* (the outcome is bound once: TLC does not cache LET values inside an action)
 Deliver(m) ==
@@ -106,7 +109,8 @@ Deliver(m) ==
 MonologueOutcome(n) ==
     LET e  == EvId(n, nodes[n].seq + 1)
         D1 == Ext(D, e, NewEvent(nodes[n], NoEv, 0))
-    IN  [ D |-> D1, nd |-> AddSelfEvent(D1, nodes[n], e) ]
+        nd1 == AddSelfEvent(D1, nodes[n], e)
+    IN  [ D |-> D1, nd |-> [ nd1 EXCEPT !.h = ProcessSigPool(@) ] ]
 
 Monologue(n) ==
     /\ n \notin Silent
